@@ -303,6 +303,20 @@ def check(run: Run) -> None:
         R.k1(run, "C02.g2", fa, roles, spec, role_calls={"ERASE": r"state_->events\.erase", "SCHEDULE": r"graph_->schedule_node"},
              invalidate={r"state_->events\.erase": "E"}, what="NodeScheduler::advance")
 
+    # ---- h. nested delegation (shared rule instances with C09) ----------------------------------------
+    with run.obligation("C02.h", "K1+K7", "wake-ups requested inside nested graphs reach the root schedule: push/pull delegation and the owners' "
+                        "re-arm protocol (shared with C09.a-e)"):
+        from . import c09
+        sub = Run("C02", run.tier, run.tree, quiet=True)
+        c09.check(sub)
+        run.evaluations += sub.evaluations
+        run.count(1, "C02.h")
+        for f in sub.findings:
+            if f.rule in ("C09.a", "C09.b", "C09.c", "C09.d", "C09.e"):
+                run.finding("C02.h", f.key, f.message, f.loc)
+        for e in sub.errors:
+            raise AnalysisError("model-mismatch", e)
+
     # ---- i. validate_times ---------------------------------------------------------------------------
     with run.obligation("C02.i", "K1", "validate_times throws iff END <= START"):
         fa = R.fn(run, EXEC, "validate_times")
